@@ -304,7 +304,9 @@ func c16Gen(t *rapid.T) c16Case {
 	c.RM = chance(t, "rm", 40)
 	c.Redir = pick(t, "redir", "", "", "/back/here")
 	c.RedirInBody = c.Redir != "" && chance(t, "redirinbody", 50)
-	c.WrongPW = pick(t, "wrongpw", "wrong-Pass1!", "", "x", "Passw0rd!a", "Passw0rd!B")
+	c.WrongPW = pick(t, "wrongpw", "wrong-Pass1!", "", "x", "Passw0rd!a", "Passw0rd!B",
+		// lengths around what bcrypt can hash (72 bytes) and far beyond: comparing accepts any length, hashing does not
+		strings.Repeat("Aa1!", 18), strings.Repeat("Aa1!", 18)+"x", strings.Repeat("Aa1!", 25), strings.Repeat("Zz9#", 300))
 	if c.Cfg.Username {
 		c.Unknown = pick(t, "unknown", "ghost", "userz", "nobody1")
 	} else {
